@@ -48,6 +48,7 @@ func symxC05() {
 		open := &opens[cl]
 		b1.log.failAppend = rt.Bool("local_log_fails")
 		symxNet.fail[2] = rt.Bool("remote_fails")
+		symxFailureKind(2)
 		allOK := !b1.log.failAppend && !(remote && symxNet.fail[2])
 		k := int(rt.Int("id", 0, 1))
 		id := ids[k]
@@ -60,7 +61,14 @@ func symxC05() {
 		case 0: // PUBLISH
 			qos := int32(rt.Int("qos", 0, 2))
 			dup := rt.Bool("dup")
-			p1.proc.Process(b1.ctx, pubS, pubC, &packet.Publish{Header: &packet.Header{Qos: qos, Dup: dup}, MessageId: id, Topic: []byte("t"), Payload: []byte("x")})
+			// RETAIN and a zero-length payload (the "clear the retained message" form) are the
+			// solver's choice too: such a publish is still a message to store and deliver
+			retain := rt.Param("retain", 0) == 1 && rt.Bool("retain")
+			payload := []byte("x")
+			if retain && rt.Bool("empty_payload") {
+				payload = []byte{}
+			}
+			p1.proc.Process(b1.ctx, pubS, pubC, &packet.Publish{Header: &packet.Header{Qos: qos, Dup: dup, Retain: retain}, MessageId: id, Topic: []byte("t"), Payload: payload})
 			switch qos {
 			case 0:
 				wantForward = 1
